@@ -94,6 +94,22 @@ var c19NonEffect = map[string]bool{
 
 func isGetAuthority(name string) bool { return strings.HasSuffix(name, ".GetAuthority") }
 
+// c19Pure: calls that change nothing a privileged message could be abused for -- logging, reading the context, formatting.
+// A handler may make them before (or without) the authority comparison.
+func c19Pure(name string) bool {
+	if strings.HasPrefix(name, "iface:cosmossdk.io/log.Logger.") || strings.HasSuffix(name, "Keeper).Logger") || strings.HasSuffix(name, "Keeper).Logger") {
+		return true
+	}
+	for _, p := range []string{"(github.com/cosmos/cosmos-sdk/types.Context).BlockHeight", "(github.com/cosmos/cosmos-sdk/types.Context).BlockTime",
+		"(github.com/cosmos/cosmos-sdk/types.Context).ChainID", "(github.com/cosmos/cosmos-sdk/types.Context).Logger",
+		"strings.", "strconv.", "fmt.Sprint", "encoding/hex.", "bytes.Equal", "bytes.Compare"} {
+		if strings.HasPrefix(name, p) {
+			return true
+		}
+	}
+	return false
+}
+
 func checkC19(r *Result) {
 	P := r.P
 	S := P.Scopes()
@@ -224,7 +240,7 @@ func checkC19(r *Result) {
 		firstBad := ""
 		var badPos token.Pos
 		for _, cs := range P.CallSitesIn(h) {
-			if c19NonEffect[cs.Callee] || isGetAuthority(cs.Callee) || strings.HasPrefix(cs.Callee, "builtin:") {
+			if c19NonEffect[cs.Callee] || c19Pure(cs.Callee) || isGetAuthority(cs.Callee) || strings.HasPrefix(cs.Callee, "builtin:") {
 				continue
 			}
 			if _, isGate := gateHelper(cs.Callee); isGate {
